@@ -223,6 +223,8 @@ PROPS["C10"] = {
         {"pkg": EX, "func": "VerifH_C10_json_shapes", "covers": ["walked"]},
         {"pkg": EX, "func": "VerifH_C19_m3u8", "covers": ["media", "master"]},
         {"pkg": EX, "func": "VerifH_C19_extension", "covers": ["has-extension"]},
+        {"pkg": EX, "func": "VerifH_C19_s3_legacy", "covers": ["object-linked"]},
+        {"pkg": EX, "func": "VerifH_C19_s3_v2", "covers": ["prefix-linked"]},
     ],
 }
 
@@ -238,6 +240,6 @@ PROPS["C15"] = {
     "stub_pkgs": DEFAULT_STUBS + [STATS],
     "harnesses": [
         {"pkg": HQ, "func": "VerifH_C15_hops_roundtrip", "covers": ["zero-hops", "some-hops"]},
-        {"pkg": HQ, "func": "VerifH_C15_producer", "replay_tries": 2, "covers": ["hq-failed-first", "timer-flush", "stopped"]},
+        {"pkg": HQ, "func": "VerifH_C15_producer", "replay_tries": 2, "covers": ["hq-failed-first", "timer-flush", "outlink-arrives-during-retry", "stopped"]},
     ],
 }
